@@ -684,10 +684,10 @@ func init() {
 		prefixStep:   map[string]int{"quick": 11, "thorough": 1},
 		tokStep:      map[string]int{"quick": 13, "thorough": 2},
 	})
-	Register(&StreamProp{
+	c12stream := &StreamProp{
 		id: "C12",
 		meta: Meta{Level: "exploration",
-			Rule:        "same typing-history stream as C01 restricted to HoverAtPos at every cursor: a non-nil hover must have non-empty content, no accompanying error, a well-formed range (position table) for the requested file that contains the cursor (start <= cursor <= end). Element-specific half: the cursor is classified from the AST with the model's effective schema (M-eff); strictly inside a known attribute name / block type / label the hover must exist, name the element, carry the description of the effective schema (dependent body for key labels) and have exactly the whole attribute / the type keyword / the label as range; on an attribute the effective schema does not know there must be none; inside a value the range must stay within the attribute's expression. distinct non-trivial = distinct (AST node kind under the cursor, mutation kind, first word of the content) with a hover.",
+			Rule:        "same typing-history stream as C01 restricted to HoverAtPos at every cursor: a non-nil hover must have non-empty content, no accompanying error, a well-formed range (position table) for the requested file that contains the cursor (start <= cursor <= end). Element-specific half: the cursor is classified from the AST with the model's effective schema (M-eff); strictly inside a known attribute name / block type / label the hover must exist, name the element, carry the description of the effective schema (dependent body for key labels) and have exactly the whole attribute / the type keyword / the label as range; on an attribute the effective schema does not know there must be none; inside a value the range must stay within the attribute's expression. Second part (object-items): for every written object/map literal with >= 2 items the items in front of item i are removed and the hover on item i (key and value cursors) must not change. distinct non-trivial = distinct (AST node kind under the cursor, mutation kind, first word of the content) with a hover.",
 			Assumptions: []string{"a cursor exactly at the end of the hover range is accepted as contained (counted separately in the evidence)"},
 			Floor:       map[string]int{"quick": 50, "thorough": 100}, CaseBudget: 60},
 		oracles:      []Oracle{oracleHover, oracleHoverElements},
@@ -697,7 +697,8 @@ func init() {
 		nGenThorough: 400,
 		prefixStep:   map[string]int{"quick": 7, "thorough": 1},
 		tokStep:      map[string]int{"quick": 9, "thorough": 2},
-	})
+	}
+	Register(&Composite{id: "C12", meta: c12stream.meta, Parts: []Prop{c12stream, c12items{}}, Names: []string{"stream", "object-items"}})
 	Register(&StreamProp{
 		id: "C13",
 		meta: Meta{Level: "exploration",
